@@ -284,11 +284,10 @@ def enter (i : Frid) (enters : List Fid) (s : St W) : Except Err (St W) :=
   let s := if enters.isEmpty then s else restartClocks i s
   forEach (frameEnter P sem lo) enters s
 
-/-- `Frame.exit()`: auxes first, then the exit acts, the `deactivize` side acts last -/
+/-- `Frame.exit()`: auxes first (`aux.exitAll(); if aux.original: aux.main = None`, the same two statements as
+`Suspender.deactivate`), then the exit acts, the `deactivize` side acts last -/
 def frameExit (f : Fid) (s : St W) : Except Err (St W) :=
-  match forEach (fun aux s => match lo.exitAll aux s with
-                              | .error e => .error e
-                              | .ok s' => .ok (release P aux s')) (P.frame f).auxes (s.emit (.exit f)) with
+  match forEach (deactivateAux P lo) (P.frame f).auxes (s.emit (.exit f)) with
   | .error e => .error e
   | .ok s1 =>
     let s2 := runActs sem .exit f (P.frame f).exacts s1
@@ -356,44 +355,61 @@ def transit (i : Frid) (f : Fid) (needs : List NeedId) (far : Fid) (tracts : Lis
       | .error e => .error e
       | .ok s => .ok (true, activate P i far s)
 
+/-- `aux.main and (aux.main is not self._act.frame)` -/
+def ownedElsewhere (aux : Frid) (f : Fid) (s : St W) : Bool :=
+  match (s.fr aux).main with
+  | some m => decide (m ≠ f)
+  | none => false
+
+/-- `Suspender.action`, branch `if aux.done:` after the needs, the ownership test and `checkStart` passed -/
+def suspendEnter (i : Frid) (f : Fid) (aux : Frid) (tracts : List Act) (s : St W) : Except Err (Bool × St W) :=
+  let s := claim P aux f (runActs sem .transit f tracts s)
+  match lo.enterAll aux s with
+  | .error e => .error e
+  | .ok s =>
+    match lo.recur aux s with
+    | .error e => .error e
+    | .ok s =>
+      if (s.fr aux).done then
+        match deactivateAux P lo aux s with
+        | .error e => .error e
+        | .ok s => .ok (false, s)
+      else .ok (true, truncate P i f (markOverlap (otherRunning P i aux s) s))
+
+/-- `Suspender.action`, branch `if aux.done:` (not active) -/
+def suspendStart (i : Frid) (f : Fid) (needs : List NeedId) (aux : Frid) (tracts : List Act) (s : St W) :
+    Except Err (Bool × St W) :=
+  if needsHold sem needs s then
+    if ownedElsewhere aux f s then .ok (false, s)
+    else
+      match lo.checkStart aux s with
+      | .error e => .error e
+      | .ok false => .ok (false, s)
+      | .ok true => suspendEnter P sem lo i f aux tracts s
+  else .ok (false, s)
+
+/-- `Suspender.action`, branch `if not aux.done:` (active) -/
+def suspendRun (i : Frid) (aux : Frid) (s : St W) : Except Err (Bool × St W) :=
+  match lo.segue aux s with
+  | .error e => .error e
+  | .ok s =>
+    match lo.recur aux s with
+    | .error e => .error e
+    | .ok s =>
+      if (s.fr aux).done then
+        match deactivateAux P lo aux s with
+        | .error e => .error e
+        | .ok s =>
+          match reactivate P i s with
+          | .error e => .error e
+          | .ok s => .ok (false, s)
+      else .ok (true, s)
+
 /-- `Suspender.action(needs, main, aux, human)`; `i = main.framer`, `f = main` = the act's frame -/
 def suspend (i : Frid) (f : Fid) (needs : List NeedId) (aux : Frid) (tracts : List Act) (s : St W) :
     Except Err (Bool × St W) :=
-  if (s.fr aux).done then
-    if !needsHold sem needs s then .ok (false, s) else
-    if (match (s.fr aux).main with | some m => decide (m ≠ f) | none => false) then .ok (false, s) else
-    match lo.checkStart aux s with
-    | .error e => .error e
-    | .ok false => .ok (false, s)
-    | .ok true =>
-      let s := runActs sem .transit f tracts s
-      let s := claim P aux f s
-      match lo.enterAll aux s with
-      | .error e => .error e
-      | .ok s =>
-        match lo.recur aux s with
-        | .error e => .error e
-        | .ok s =>
-          if (s.fr aux).done then
-            match deactivateAux P lo aux s with
-            | .error e => .error e
-            | .ok s => .ok (false, s)
-          else .ok (true, truncate P i f (markOverlap (otherRunning P i aux s) s))
-  else
-    match lo.segue aux s with
-    | .error e => .error e
-    | .ok s =>
-      match lo.recur aux s with
-      | .error e => .error e
-      | .ok s =>
-        if (s.fr aux).done then
-          match deactivateAux P lo aux s with
-          | .error e => .error e
-          | .ok s =>
-            match reactivate P i s with
-            | .error e => .error e
-            | .ok s => .ok (false, s)
-        else .ok (true, s)
+  if (s.fr aux).done then suspendStart P sem lo i f needs aux tracts s
+  else suspendRun P lo i aux s
 
 def runPreact (i : Frid) (f : Fid) (p : Preact) (s : St W) : Except Err (Bool × St W) :=
   match p with
